@@ -196,21 +196,29 @@ fn parse_id(msg: &str) -> Option<(usize, usize)> {
 }
 
 enum ChildOutcome {
+  /// the harness could not run the child at all (never a verdict)
+  Infra(String),
   Done(ChildResult),
   TimedOut,
   Crashed(String),
 }
 
 fn run_child(job_path: &Path, dir: &Path) -> ChildOutcome {
-  let exe = match std::env::current_exe() {
-    Ok(e) => e,
-    Err(e) => return ChildOutcome::Crashed(format!("current_exe: {e}")),
+  // the running binary itself: /proc/self/exe keeps working when a concurrent `cargo build`
+  // replaces the file on disk while this check runs
+  let exe = if Path::new("/proc/self/exe").exists() {
+    std::path::PathBuf::from("/proc/self/exe")
+  } else {
+    match std::env::current_exe() {
+      Ok(e) => e,
+      Err(e) => return ChildOutcome::Infra(format!("current_exe: {e}")),
+    }
   };
   let stdout = std::fs::File::create(dir.join("stdout.txt")).expect("stdout file");
   let stderr = std::fs::File::create(dir.join("stderr.txt")).expect("stderr file");
   let mut child = match std::process::Command::new(exe).arg("drive").arg(job_path).stdin(std::process::Stdio::null()).stdout(stdout).stderr(stderr).env_remove("FIBRE_LOGGING_VERBOSE").spawn() {
     Ok(c) => c,
-    Err(e) => return ChildOutcome::Crashed(format!("spawn: {e}")),
+    Err(e) => return ChildOutcome::Infra(format!("spawn: {e}")),
   };
   let limit: u64 = std::env::var("VERIF_CHILD_SECS").ok().and_then(|s| s.parse().ok()).unwrap_or(45);
   let deadline = Instant::now() + Duration::from_secs(limit);
@@ -237,24 +245,58 @@ fn run_child(job_path: &Path, dir: &Path) -> ChildOutcome {
         }
         std::thread::sleep(Duration::from_millis(3));
       }
-      Err(e) => return ChildOutcome::Crashed(format!("wait: {e}")),
+      Err(e) => return ChildOutcome::Infra(format!("wait: {e}")),
     }
   }
 }
 
-/// Failures in the order they were first observed (scenario as generated).  Real-thread cases
-/// can fail once and pass when proptest re-runs them while shrinking; vcore then only knows
-/// "nondeterministic".  The check substitutes the first recorded failure so that what was
-/// actually observed is not lost.
-pub static FIRST_FAILURES: std::sync::Mutex<Vec<(E2eCase, Failure)>> = std::sync::Mutex::new(Vec::new());
+/// Bookkeeping for real-thread cases (local workaround, see NOTES.md "vcore"):
+///  * a scenario observed failing stays failing for the rest of the run (answered from the book):
+///    a race-dependent failure would otherwise "pass" when re-run during shrinking and be lost;
+///  * a failing child can be slow (a stream that never disconnects costs the child's whole
+///    wait), and proptest would re-run it hundreds of times while shrinking — after the first
+///    failure shrinking gets a wall-clock budget, then every further candidate is answered
+///    "passes" without running it, which makes proptest stop at the smallest scenario that
+///    really failed.
+pub struct Book {
+  /// every failure observed: (scenario hash, scenario, failure), in order
+  pub failures: Vec<(u64, E2eCase, Failure)>,
+  pub first_failure_at: Option<Instant>,
+}
+pub static BOOK: std::sync::Mutex<Book> = std::sync::Mutex::new(Book { failures: Vec::new(), first_failure_at: None });
+
+pub fn scenario_hash(c: &E2eCase) -> u64 {
+  vcore::hash_str(&serde_json::to_string(c).unwrap_or_default())
+}
 
 pub fn execute_recording(c: &E2eCase) -> Result<CaseReport, Failure> {
+  let budget: u64 = std::env::var("VERIF_E2E_SHRINK_SECS").ok().and_then(|v| v.parse().ok()).unwrap_or(15);
+  let h = scenario_hash(c);
+  {
+    let g = BOOK.lock().unwrap();
+    // proptest re-runs the current failing value after every rejected simplification: a
+    // scenario already observed failing is answered from the book instead of spawning the
+    // same child again (the separate `replay` command re-runs it for real)
+    if let Some((_, _, f)) = g.failures.iter().find(|(bh, _, _)| *bh == h) {
+      return Err(f.clone());
+    }
+    if let Some(t) = g.first_failure_at {
+      if t.elapsed().as_secs() >= budget {
+        let mut rep = CaseReport::new();
+        rep.class("e2e/skipped_after_shrink_budget");
+        return Ok(rep);
+      }
+    }
+  }
   let r = execute(c);
   if let Err(f) = &r {
     if f.property == P {
-      let mut g = FIRST_FAILURES.lock().unwrap();
-      if g.len() < 256 {
-        g.push((c.clone(), f.clone()));
+      let mut g = BOOK.lock().unwrap();
+      if g.first_failure_at.is_none() {
+        g.first_failure_at = Some(Instant::now());
+      }
+      if g.failures.len() < 4096 {
+        g.failures.push((h, c.clone(), f.clone()));
       }
     }
   }
@@ -262,7 +304,7 @@ pub fn execute_recording(c: &E2eCase) -> Result<CaseReport, Failure> {
 }
 
 pub fn execute(c: &E2eCase) -> Result<CaseReport, Failure> {
-  let tmp = tempfile::Builder::new().prefix("logx-e2e-").tempdir().map_err(|e| Failure::new("INFRA", "tempdir", e.to_string()))?;
+  let tmp = crate::gen::scratch_dir("logx-e2e-").map_err(|e| Failure::new("INFRA", "tempdir", e.to_string()))?;
   let r = execute_in(c, tmp.path());
   if r.is_err() && std::env::var("VERIF_KEEP").is_ok() {
     eprintln!("kept {}", tmp.keep().display());
@@ -301,6 +343,7 @@ fn execute_in(c: &E2eCase, dir: &Path) -> Result<CaseReport, Failure> {
   };
   let res = match run_child(&job_path, dir) {
     ChildOutcome::Done(r) => r,
+    ChildOutcome::Infra(m) => return Err(Failure::new("INFRA", "e2e/cannot_run_child", m)),
     ChildOutcome::TimedOut => {
       // a hang is never a violation
       rep.inconclusive = 1;
@@ -346,11 +389,14 @@ fn execute_in(c: &E2eCase, dir: &Path) -> Result<CaseReport, Failure> {
       AppKind::Custom { late, .. } => {
         let sr = res.streams.get(&name).cloned().unwrap_or_default();
         // "after which custom streams drain and then disconnect"
-        if *late && sr.empty_before_disconnect {
+        // (checked when no emitter can still be inside a send: with emitters racing the
+        // shutdown a transient Empty between an in-flight send and the disconnect is not
+        // something the sentence rules out)
+        if *late && sr.empty_before_disconnect && !concurrent {
           return Err(Failure::new(P, sig("empty_before_disconnect"), format!("stream {name}: try_recv returned Empty after shutdown returned, before Disconnected")));
         }
         if !sr.disconnected {
-          return Err(Failure::new(P, sig("no_disconnect"), format!("stream {name}: receiver did not observe Disconnected within 20 s after shutdown")));
+          return Err(Failure::new(P, sig("no_disconnect"), format!("stream {name}: receiver did not observe Disconnected within the driver's wait (6 s) after shutdown returned")));
         }
         sr.events.into_iter().map(|(msg, level, target)| Delivered { msg, level, target }).collect()
       }
@@ -431,7 +477,7 @@ fn execute_in(c: &E2eCase, dir: &Path) -> Result<CaseReport, Failure> {
           // was accepted (the channel was still open later) and then lost
           if have {
             if let Some(m) = missing_before {
-              return Err(Failure::new(P, sig("gap"), format!("appender {name}: e{t}-{s} arrived but the earlier e{t}-{m} did not")));
+              return Err(Failure::new(P, format!("{}/{}", sig("gap"), situation(&verdicts[t][m])), format!("appender {name}: e{t}-{s} arrived but the earlier e{t}-{m} did not; loggers: {}", describe(&c.loggers))));
             }
           } else if missing_before.is_none() {
             missing_before = Some(s);
